@@ -82,3 +82,58 @@ Proof. vm_compute. auto. Qed.
 (* the hypothesis of reported_outcome_possible is satisfiable: node 0 measures its half of the pair *)
 Example ex_reported : snd (step s7 (OMeas 4 true true)) = Ok 1 /\ snd (step s7 (OMeas 4 true false)) = Ok 0.
 Proof. vm_compute. auto. Qed.
+
+(* ---- client-made registers (remote_add_register / remote_new_qubit_inreg) ------------------------------------------------------------
+   Node 0 makes a register of capacity 2 and fills it with two qubits (a third creation is refused: register full); they are
+   entangled inside that register; node 1 makes a register it never uses; one half is sent to node 1, which creates an ordinary
+   qubit and applies CNOT(new qubit, received half): node 1 PULLS the client-made register of node 0.  The empty register is an
+   empty factor, the register operations translate to creations of fresh |0> qubits / no-ops. *)
+Definition capsr : list (nat * nat) := [(5,3);(5,3)].
+Definition regprog10 : list op :=
+  [ONewReg 0 2; ONewInReg 0 0 0; ONewInReg 0 0 0; ONewInReg 0 0 0; OGate1 0 NH; OGate2 0 1 NCnot; ONewReg 1 4; OSend 1 1; ONew 1;
+   OGate2 3 2 NCnot].
+Definition regprog : list op := regprog10 ++ [OMeas 2 true true; OMeas 0 false false; OMeas 3 false true].
+
+Example ex_reg_translation :
+  tr_run (init_net capsr) regprog =
+  [INop; ICreate 0; ICreate 1; INop; IGate1 0 GH; IGate2 0 1 GCNOT; INop; INop; ICreate 3; IGate2 3 1 GCNOT;
+   IMeas 1 true true; IMeas 0 false false; IMeas 3 false true].
+Proof. vm_compute. reflexivity. Qed.
+
+(* the unused register of node 1 is an empty factor; the pulled register holds identities 3, 0, 1 in ITS order *)
+Example ex_reg_factors :
+  factors (run (init_net capsr) regprog10) =
+  [mkF [] 0 [];
+   mkF [3; 0; 1] 3 [[false; false; false; true; false; false; false];
+                    [false; true; true; false; false; false; false];
+                    [false; false; false; true; true; true; false]]] /\
+  irun iinit (tr_run (init_net capsr) regprog10) =
+  ([0; 1; 3], [[true; true; false; false; false; false; false];
+               [false; false; false; true; true; true; false];
+               [false; false; false; false; false; true; false]]).
+Proof. vm_compute. auto. Qed.
+
+Example ex_reg_outcomes :
+  run_outs (init_net capsr) regprog =
+    [Ok 0; Ok 0; Ok 1; Err KNoQubit; OkNone; OkNone; Ok 0; Ok 0; Ok 1; OkNone; Ok 1; Ok 1; Ok 0] /\
+  outs_meas regprog (run_outs (init_net capsr) regprog) =
+    [None; None; None; None; None; None; None; None; None; None; Some true; Some true; Some false] /\
+  irun_outs iinit (tr_run (init_net capsr) regprog) =
+    [None; None; None; None; None; None; None; None; None; None; Some true; Some true; Some false].
+Proof. vm_compute. auto. Qed.
+
+(* X_0 X_1 (the Bell pair made inside the client-made register) is in the joint group, hence in the ideal group *)
+Example ex_reg_joint_XX : joint (run (init_net capsr) regprog10) (P0, g2 0 PX 1 PX).
+Proof.
+  unfold joint. rewrite (proj1 ex_reg_factors). simpl.
+  exists (pone 0), (P0, g2 0 PX 1 PX). split; [apply gen_one|]. split.
+  - exists (decode_ph 3 [false; true; true; false; false; false; false]), gone. split; [apply gen_row; simpl; auto|].
+    split; [apply geq_refl|]. split; [reflexivity|]. intros [|[|[|[|q]]]]; reflexivity.
+  - split; [reflexivity|]. intro q; reflexivity.
+Qed.
+
+Example ex_reg_ideal_XX : ideal (irun iinit (tr_run (init_net capsr) regprog10)) (P0, g2 0 PX 1 PX).
+Proof.
+  pose proof (location_transparency capsr regprog10) as H. cbv zeta in H. destruct H as [H _].
+  apply (proj1 (H _)). exact ex_reg_joint_XX.
+Qed.
